@@ -10,7 +10,7 @@ import (
 )
 
 // Profile names a scheduling regime for the generated prefix.
-var Profiles = []string{"near-sync", "random", "timeout-heavy", "partition", "equivocate", "late-commit", "gate", "gate", "laggard", "two-faced", "hijack"}
+var Profiles = []string{"near-sync", "random", "timeout-heavy", "partition", "equivocate", "late-commit", "gate", "gate", "laggard", "two-faced", "hijack", "rotlag"}
 
 type RunOpts struct {
 	Profile    string
@@ -36,6 +36,8 @@ func profileWeights(p string) weights {
 		return weights{deliver: 30, alarm: 4, dup: 1, drop: 0, byz: 8, start: 10}
 	case "gate", "laggard":
 		return weights{deliver: 30, alarm: 3, dup: 1, drop: 0, byz: 2, start: 8}
+	case "rotlag":
+		return weights{deliver: 30, alarm: 3, dup: 1, drop: 0, byz: 5, start: 12}
 	case "two-faced":
 		return weights{deliver: 40, alarm: 2, dup: 1, drop: 0, byz: 0, start: 10}
 	default:
@@ -80,6 +82,14 @@ func (w *World) held(profile string, p *Pending, step, healAt int, group map[int
 			return p.Msg.Vote.Round == holdRound+1
 		}
 		return false
+	case "rotlag":
+		// rotating laggard: the node whose turn it is hears nothing; when the others reach the
+		// next round the role passes on and the former laggard receives its backlog newest
+		// first (so it skips rounds); the others run the gate schedule
+		if p.To == w.curLag {
+			return true
+		}
+		return w.held("gate", p, step, healAt, group, holdRound)
 	case "laggard":
 		// node 0 hears nothing until the heal point while the others run the gate schedule
 		if p.To == 0 {
@@ -105,6 +115,29 @@ func (w *World) held(profile string, p *Pending, step, healAt int, group map[int
 		}
 	}
 	return false
+}
+
+// newestFor returns the position in deliverable of the pending entry for node to
+// with the highest round (PREPARE before CONVERGE before the rest), or -1.
+func (w *World) newestFor(deliverable []int, to int) int {
+	best, bestRank := -1, int64(-1)
+	for pos, k := range deliverable {
+		p := w.Pool[k]
+		if p.To != to || p.Msg.Vote.Instance != w.Nodes[to].P.Progress().ID {
+			continue
+		}
+		rank := int64(p.Msg.Vote.Round) * 4
+		switch p.Msg.Vote.Phase {
+		case gpbft.PREPARE_PHASE:
+			rank += 3
+		case gpbft.CONVERGE_PHASE:
+			rank += 2
+		}
+		if rank > bestRank {
+			best, bestRank = pos, rank
+		}
+	}
+	return best
 }
 
 func (w *World) maxHonestRound() uint64 {
@@ -141,7 +174,7 @@ func (w *World) RunPrefix(t *rapid.T, o RunOpts) {
 	}
 	for i := range w.Nodes {
 		if _, ok := group[i]; !ok {
-			if o.Profile == "hijack" {
+			if o.Profile == "hijack" || o.Profile == "rotlag" || (o.Profile == "laggard" && i > 0) {
 				// alternate sides, so that neither side can reach a quorum on its own
 				group[i] = (i + hijackOff) % 2
 				continue
@@ -158,6 +191,11 @@ func (w *World) RunPrefix(t *rapid.T, o RunOpts) {
 	if o.Profile == "hijack" && healAt < o.MaxSteps/2 {
 		healAt = o.MaxSteps / 2
 	}
+	if o.Profile == "laggard" {
+		// the others need time to leave round 0 before the laggard hears the backlog, and the
+		// backlog needs time to arrive within the prefix
+		healAt = o.MaxSteps * rapid.IntRange(2, 3).Draw(t, "laghealquarters") / 4
+	}
 	// rapid's integer generators favour small values; the prefix length is drawn in
 	// quarters of the budget so that long adversarial prefixes are the normal case
 	steps := o.MaxSteps * rapid.IntRange(0, 4).Draw(t, "prefixquarters") / 4
@@ -167,14 +205,43 @@ func (w *World) RunPrefix(t *rapid.T, o RunOpts) {
 	if o.Profile == "hijack" && steps < o.MaxSteps/2 {
 		steps = o.MaxSteps / 2
 	}
+	if o.Profile == "laggard" {
+		steps = o.MaxSteps
+	}
+	lagOff := 0
+	w.curLag = -1
+	if o.Profile == "rotlag" {
+		steps, healAt = o.MaxSteps, o.MaxSteps
+		lagOff = rapid.IntRange(0, len(w.Nodes)-1).Draw(t, "lagoff")
+	}
+	// laggard variants: 0 = node 0 runs on its timers but hears nothing until the heal point;
+	// 1 = node 0 additionally starts only at the heal point (it is still in QUALITY when the
+	// backlog arrives); 2 = as 1, and the backlog reaches it newest round first (PREPARE
+	// before CONVERGE), which is what makes it skip rounds
+	lagMode := 0
+	if o.Profile == "laggard" && len(w.Nodes) > 1 {
+		lagMode = rapid.IntRange(0, 2).Draw(t, "lagmode")
+	}
 	// at least one node starts at once
-	w.Start(rapid.IntRange(0, len(w.Nodes)-1).Draw(t, "firststart"))
+	if lagMode > 0 {
+		w.Start(rapid.IntRange(1, len(w.Nodes)-1).Draw(t, "firststart"))
+	} else {
+		w.Start(rapid.IntRange(0, len(w.Nodes)-1).Draw(t, "firststart"))
+	}
 	for s := 0; s < steps; s++ {
 		if w.AllDecided() {
 			break
 		}
 		if w.maxHonestRound() >= 12 {
 			break // keep phase timeouts (delta * exponent^round) within time.Duration
+		}
+		prevLag := -1
+		if o.Profile == "rotlag" && len(w.Nodes) > 2 {
+			r := int(w.maxHonestRound())
+			w.curLag = (r + lagOff) % len(w.Nodes)
+			if r > 0 {
+				prevLag = (r - 1 + lagOff) % len(w.Nodes)
+			}
 		}
 		var deliverable []int
 		for k, p := range w.Pool {
@@ -188,9 +255,13 @@ func (w *World) RunPrefix(t *rapid.T, o RunOpts) {
 			if w.alarmEligible(n) {
 				alarms = append(alarms, i)
 			}
-			if !n.Started {
+			if !n.Started && !(lagMode > 0 && i == 0 && s < healAt) {
 				unstarted = append(unstarted, i)
 			}
+		}
+		if lagMode > 0 && s >= healAt && !w.Nodes[0].Started {
+			w.Start(0)
+			continue
 		}
 		type cat struct {
 			name string
@@ -237,6 +308,16 @@ func (w *World) RunPrefix(t *rapid.T, o RunOpts) {
 			} else {
 				k = rapid.IntRange(0, len(deliverable)-1).Draw(t, "pick")
 			}
+			if lagMode == 2 && s >= healAt && rapid.IntRange(0, 3).Draw(t, "newestfirst") > 0 {
+				if nk := w.newestFor(deliverable, 0); nk >= 0 {
+					k = nk
+				}
+			}
+			if prevLag >= 0 && rapid.IntRange(0, 3).Draw(t, "newestfirst") > 0 {
+				if nk := w.newestFor(deliverable, prevLag); nk >= 0 {
+					k = nk
+				}
+			}
 			w.Deliver(deliverable[k])
 		case "dup":
 			w.Duplicate(deliverable[rapid.IntRange(0, len(deliverable)-1).Draw(t, "pick")])
@@ -259,6 +340,9 @@ func (w *World) RunPrefix(t *rapid.T, o RunOpts) {
 func (w *World) ByzAction(t *rapid.T, profile string) {
 	cfg := w.Cfg
 	if profile == "hijack" && rapid.IntRange(0, 4).Draw(t, "byzscript") > 0 && w.byzHijack() {
+		return
+	}
+	if profile == "rotlag" && rapid.IntRange(0, 4).Draw(t, "byzscript") > 0 && w.byzPush() {
 		return
 	}
 	if rapid.IntRange(0, 15).Draw(t, "byzflood") == 0 {
@@ -414,6 +498,80 @@ func (w *World) byzHijack() bool {
 		}
 		w.Stats.HijackConverges++
 		return true
+	}
+	return false
+}
+
+// byzPush is the scripted part of the "rotlag" profile: the coalition keeps pushing one chain
+// nobody honest proposed. For the newest round whose COMMIT-for-bottom quorum the evidence
+// holds, every member sends CONVERGE and PREPARE of the next round for that chain justified
+// by the (genuine) quorum; for the newest round with a PREPARE quorum for the chain (honest
+// participants would have to have been swayed) a COMMIT, and for a COMMIT quorum a DECIDE.
+// Each stage once per instance and round; false if nothing could be done.
+func (w *World) byzPush() bool {
+	cfg := w.Cfg
+	inst := uint64(0)
+	found := false
+	for _, n := range w.Nodes {
+		if n.Started {
+			if pi := n.P.Progress().ID; cfg.Inst(pi) != nil && (!found || pi < inst) {
+				inst, found = pi, true
+			}
+		}
+	}
+	if !found {
+		return false
+	}
+	var base *gpbft.TipSet
+	for _, n := range w.Nodes {
+		if b := n.Bases[inst]; b != nil {
+			base = b
+		}
+	}
+	if base == nil && inst == cfg.First {
+		base = cfg.Root
+	}
+	if base == nil {
+		return false
+	}
+	if w.pushed == nil {
+		w.pushed = map[[3]uint64]bool{}
+	}
+	evil := PathChain(base, []int{5})
+	var all []int
+	for i := range w.Nodes {
+		all = append(all, i)
+	}
+	top := w.maxHonestRound()
+	for r := top + 1; ; r-- {
+		if j, ok := w.ByzJustify(inst, r, gpbft.COMMIT_PHASE, evil, false); ok && j != nil && !w.pushed[[3]uint64{inst, r, 2}] {
+			w.pushed[[3]uint64{inst, r, 2}] = true
+			for _, id := range cfg.Byz {
+				w.SendByz(w.ByzMessage(id, inst, 0, gpbft.DECIDE_PHASE, evil, j), all)
+			}
+			w.Stats.HijackCommits++
+			return true
+		}
+		if j, ok := w.ByzJustify(inst, r, gpbft.PREPARE_PHASE, evil, false); ok && j != nil && !w.pushed[[3]uint64{inst, r, 1}] {
+			w.pushed[[3]uint64{inst, r, 1}] = true
+			for _, id := range cfg.Byz {
+				w.SendByz(w.ByzMessage(id, inst, r, gpbft.COMMIT_PHASE, evil, j), all)
+			}
+			w.Stats.HijackCommits++
+			return true
+		}
+		if j, ok := w.ByzJustify(inst, r, gpbft.COMMIT_PHASE, nil, false); ok && j != nil && !w.pushed[[3]uint64{inst, r, 0}] {
+			w.pushed[[3]uint64{inst, r, 0}] = true
+			for _, id := range cfg.Byz {
+				w.SendByz(w.ByzMessage(id, inst, r+1, gpbft.CONVERGE_PHASE, evil, j), all)
+				w.SendByz(w.ByzMessage(id, inst, r+1, gpbft.PREPARE_PHASE, evil, j), all)
+			}
+			w.Stats.HijackConverges++
+			return true
+		}
+		if r == 0 {
+			break
+		}
 	}
 	return false
 }
